@@ -103,4 +103,10 @@ PROPS = {
 
 # merged but not yet claimed (waiting for the model to follow fix: commits in /repo); runnable with bin/check, not in MANIFEST
 PENDING = {
+    "C17": dict(
+        lean_props=[],
+        engines=[E("crash", "e_crash.c", model=None, wrap=True, quick=dict(cases=60, chunk=4, timeout=1200), thorough=dict(cases=600, seeds=2, chunk=8, timeout=3000))],
+        trusted_base=["stdio interposition (harness/wrap.h): unbuffered stream, each library write is one physical write"],
+        assumptions=["each library-level write is atomic and ordered (stdio on one stream)"],
+    ),
 }
